@@ -23,7 +23,7 @@ const A_WRAP: &[&str] = &[" ", "a", "bc", "-", "\n", "é", "你", "d-e"];
 /// in 0xAD (中), non-space whitespace (tab, NBSP, U+3000), zero-width and combining characters, CR, and CSI/OSC
 /// sequences with final bytes at both ends of the @..~ range
 const A_BIG: &[&str] = &[" ", "a", "bc", "-", "\n", "é", "你", "中", "d-e", "\u{ad}", "\u{301}", "\u{200b}", "\u{a0}", "\u{3000}", "\r\n", "\r", "\t", "😂",
-    "\x1b[31m", "\x1b[0m", "\x1b[1~", "\x1b[@", "\x1b]8;;x\x1b\\", "\x1b]0;a b\x07"];
+    "\x1b[31m", "\x1b[0m", "\x1b[1~", "\x1b[@", "\x1b]8;;x\x1b\\", "\x1b]0;a b\x07", "\x1b]8;;a-b\x1b\\"];
 const A_ADVERSARIAL: &[&str] = &[" ", "a", "-", "\n", "\r", "\t", "é", "你", "中", "\u{ad}", "\u{a0}", "\u{3000}", "\u{200b}", "\u{301}", "😂", "\x1b", "[", "]", "m", "~", "\x07", "\\"];
 const A_ANSI: &[&str] = &["a", " ", "你", "\u{301}", "\x1b[31m", "\x1b[0m", "\x1b[1~", "\x1b[@", "\x1b[?", "\x1b]8;;x\x1b\\", "\x1b]0;t\x07", "\x1b[", "\x1b", "m", "\\", "[", "\x7f", "?"];
 const A_WORDS: &[&str] = &[" ", "a", "b", "-", "\t", "\u{a0}", "\u{200b}", "\u{2060}", "你", "中", "😂", "😭", "\u{ad}", "\n", "\x1b[31m", "\x1b[0m", ")", "é", "\u{3000}", "\x1b]8;;x\x1b\\", "\x1b]0;t\x07"];
